@@ -1,5 +1,6 @@
 """C12 — one unservable entry never takes down its directory."""
 import json
+import re
 
 from common import Check, coq_eval, impl_run, impl_run_parallel
 import gen
@@ -14,11 +15,16 @@ KINDS = ["dangling", "fifo", "socket", "dotdot", "dotbs", "bsbs", "enoent", "eac
 SUFFIXES = [".html", ".gophermap", ".mbox", ".zip", ".pyg", ".tal", ".txt.gz"]
 SUFFIX_KINDS = ["dangling", "enoent", "vanish"]
 # fault kinds whose stat / open fails: these also get the request repeated within the directory cache's lifetime
-REPEAT_KINDS = {"dangling", "enoent", "eacces", "vanish", "openfail", "stat2fail", "dot-dangling", "dot-dotdot-link"}
+REPEAT_KINDS = {"dangling", "enoent", "eacces", "vanish", "openfail", "stat2fail", "open2fail", "dot-dangling",
+                "dot-dotdot-link", "linkfile-openfail", "sidecar-openfail"}
 # the handler chain accepts the child (stat says regular file) but the file-system call it then makes fails:
 # open() for the HTML title, the second stat of a *.gophermap file, ...
 CALL_KINDS = ["openfail:.html", "openfail:.txt", "openfail:.mbox", "stat2fail:.gophermap", "stat2fail:.html",
-              "stat2fail:.txt", "openfail:.gophermap"]
+              "stat2fail:.txt", "openfail:.gophermap",
+              # the fault from the k-th call on, k = 2, 3: gone after the first look
+              "open2fail:.html", "open3fail:.html", "open2fail:.txt", "stat3fail:.html", "stat3fail:.gophermap",
+              # a sidecar file of a child / of the listed directory itself that is there but cannot be opened
+              "sidecar-openfail", "sidecar-vanished", "dir-abstract-openfail", "subdir-abstract-openfail"]
 # name classes for a faulty entry: its name ends up in the not-found message and in the log
 NAME_CLASSES = ["-caf\udce9-du-jour", "-%s%d%(x)s%", "-cr\rlf\ntab\tctl\x01", "-" + "L" * 180, "-\u00e9\u20ac\U0001f600",
                 "-sp ace \"quoted\" 'x'"]
@@ -41,12 +47,25 @@ def fault_entry(pre, letter, kind):
     if kind == "socket":
         n = letter + "sock" + suf
         return n, [{"path": tp(pre + n), "kind": "socket"}], None
-    if kind in ("openfail", "stat2fail"):
+    m = re.fullmatch(r"(open|stat)(\d*)fail", kind)
+    if m:
         n = letter + "locked" + (suf or ".html")
         data = "<html><head><title>Locked</title></head></html>\n" if n.endswith(".html") else "locked\n"
-        spec = {"call": "open", "from": 1, "errno": "EACCES"} if kind == "openfail" else \
-               {"call": "stat", "from": 2, "errno": "ENOENT"}
+        k = int(m.group(2) or (1 if m.group(1) == "open" else 2))
+        spec = {"call": m.group(1), "from": k, "errno": "EACCES" if m.group(1) == "open" else "ENOENT"}
         return n, [{"path": tp(pre + n), "data": data}], spec
+    if kind in ("sidecar-openfail", "sidecar-vanished"):
+        # the faulty object is the sidecar; the child it belongs to must still be listed
+        n = letter + "doc.txt"
+        return n + ".abstract", [{"path": tp(pre + n), "data": "doc\n"}, {"path": tp(pre + n + ".abstract"), "data": "about\n"}], \
+            {"call": "open", "from": 1, "errno": "EACCES" if kind == "sidecar-openfail" else "ENOENT"}
+    if kind == "dir-abstract-openfail":
+        return ".abstract", [{"path": tp(pre + ".abstract"), "data": "about this directory\n"}], \
+            {"call": "open", "from": 1, "errno": "EACCES"}
+    if kind == "subdir-abstract-openfail":
+        n = letter + "dir"
+        return n + "/.abstract", [{"path": tp(pre + n), "kind": "dir"}, {"path": tp(pre + n + "/.abstract"), "data": "about\n"}], \
+            {"call": "open", "from": 1, "errno": "EACCES"}
     if kind == "sidecar-fifo":
         # a FIFO where a sidecar file is expected: next to a good file, and as the .abstract of a sub-directory
         n = letter + "doc.txt"
@@ -112,10 +131,16 @@ def scenario(dirsel, faults):
     callf = {}
     names = []
     vanish = []
+    extra_all = []
     for pos, kind in faults:
         n, ents, sf = fault_entry(pre, LETTERS[pos], kind)
         tree += ents
         names.append(n)
+        if kind.split(":")[0] in ("sidecar-openfail", "sidecar-vanished", "subdir-abstract-openfail", "sidecar-fifo",
+                                  "sidecar-fifo-dir"):
+            # the object the faulty sidecar belongs to is itself perfectly servable: it must be listed
+            owner = n[:-len(".abstract")].rstrip("/")
+            extra_all.append(("" if dirsel == "/" else dirsel) + "/" + owner)
         if sf == "vanish":
             vanish.append(n)
         elif isinstance(sf, dict):
@@ -123,16 +148,44 @@ def scenario(dirsel, faults):
         elif sf:
             statf[n] = sf
     return {"tree": tree, "dir": dirsel, "stat_faults": statf, "call_faults": callf, "vanish": vanish, "faulty": names,
-            "faults": faults}
+            "faults": faults, "extra_all": extra_all}
 
 
-def success_with_all(proto, out, base):
+def linkfile_scenarios():
+    """Several link files in one directory, one of them (sorting first / in the middle / last) passes the
+    regular-file probe but cannot be opened (deleted since, EACCES): the entries contributed by the OTHER
+    link files belong to "every other entry"."""
+    out = []
+    k = 0
+    for pos in range(3):
+        for err in ("EACCES", "ENOENT"):
+            dirsel = ["/d", "/"][k % 2]
+            k += 1
+            sc = scenario(dirsel, [])
+            pre = dirsel.strip("/")
+            pre = pre + "/" if pre else ""
+            lfs = [".aLinks", ".mNames.tmp4711", ".zlinks"]
+            extra = []
+            for i, lf in enumerate(lfs):
+                sc["tree"].append({"path": pre + lf, "data": "Name=From %d\nType=1\nPath=/elsewhere/%d\nHost=+\nPort=+\n" % (i, i)})
+                if i != pos:
+                    extra.append("/elsewhere/%d" % i)
+            sc["call_faults"] = {lfs[pos]: {"call": "open", "from": 1, "errno": err}}
+            sc["faulty"] = [lfs[pos]]
+            sc["faults"] = [(pos, "linkfile-openfail:" + err)]
+            sc["extra_umn"] = extra
+            sc["sweep"] = True
+            out.append(sc)
+    return out
+
+
+def success_with_all(proto, out, base, extra=()):
     """Implementation-level statement of the property for one response."""
     if not out:
         return False, "empty reply"
     if gen.notfound_class(proto, out):
         return False, "error reply instead of the listing"
-    missing = [g for g in GOOD if (base + "/" + g).encode() not in out]
+    missing = [g for g in GOOD if (base + "/" + g).encode() not in out] + [x for x in extra if x.encode() not in out]
     if missing:
         return False, "entries missing: %s" % missing
     return True, ""
@@ -176,6 +229,8 @@ def run(tier):
             k += 1
     for sc in scenarios[len(LETTERS) * len(KINDS):]:
         sc["sweep"] = True      # sweeps over names / suffixes / call faults: three protocol syntaxes are enough
+    lfscs = linkfile_scenarios()
+    scenarios += lfscs
     pairs = []
     for p1 in range(len(LETTERS)):
         for p2 in range(p1 + 1, len(LETTERS)):
@@ -197,7 +252,8 @@ def run(tier):
     jobs = []
     for sc in scenarios:
         reqs = []
-        for proto in (gen.PROTOCOLS if (thorough or not sc.get("sweep")) else ["gopher", "http", "gemini"]):
+        allp = thorough or (not sc.get("sweep") and (not sc["faults"] or sc["faults"][0][0] in (0, 2)))
+        for proto in (gen.PROTOCOLS if allp else ["gopher", "http", "gemini"]):
             data, tls = gen.request_bytes(proto, sc["dir"])
             reqs.append({"data": gen.lat(data), "tls": tls, "proto": proto})
         jobs.append({"op": "c12_faults", "tree": sc["tree"], "dir": sc["dir"], "stat_faults": sc["stat_faults"],
@@ -205,15 +261,20 @@ def run(tier):
                      "requests": reqs,
                      "repeat_requests": [q for q in reqs if q["proto"] in ("gopher", "http")]
                      if any(kd.split(":")[0] in REPEAT_KINDS for _, kd in sc["faults"]) else []})
-    res = impl_run_parallel(jobs, chunks=12)
+    res = impl_run_parallel(jobs, chunks=16)
     umnlib.check_ok(res)
 
     def tag_for(sc, only_dot):
         kinds = [kd.split(":")[0] for _, kd in sc["faults"]]
         if only_dot:
             return "c12-dotfile-aborts-listing"
-        if kinds and all(kd in ("openfail", "stat2fail") for kd in kinds):
+        if kinds and all(re.fullmatch(r"(open|stat)\d*fail", kd) for kd in kinds):
             return "c12-unreadable-child-aborts-listing"
+        if kinds and all(kd in ("sidecar-openfail", "sidecar-vanished", "dir-abstract-openfail", "subdir-abstract-openfail")
+                         for kd in kinds):
+            return "c12-unreadable-sidecar-loses-entries"
+        if kinds and all(kd == "linkfile-openfail" for kd in kinds):
+            return "c12-unreadable-linkfile-loses-entries"
         if kinds and all(kd.startswith("sidecar-fifo") for kd in kinds):
             return "c12-sidecar-fifo-blocks-listing"
         return "c12-child-aborts-listing"
@@ -241,7 +302,9 @@ def run(tier):
             # handler level: prepare() succeeds and keeps every good entry
             for g in run_["groups"]:
                 res_ = g["result"]
-                ok = "entries" in res_ and all(any(e["selector"] == base + "/" + n for e in res_["entries"]) for n in GOOD)
+                extra = (sc.get("extra_umn", []) if kind == "umn" else []) + sc.get("extra_all", [])
+                ok = "entries" in res_ and all(any(e["selector"] == base + "/" + n for e in res_["entries"]) for n in GOOD) \
+                    and all(any(e["selector"] == x for e in res_["entries"]) for x in extra)
                 chk.count((json.dumps(sc["faults"]), sc["dir"], kind, "prepare", json.dumps(g["perms"])), nontrivial=bool(sc["faults"]))
                 if not ok:
                     fails += 1
@@ -256,7 +319,7 @@ def run(tier):
             for rq, o in zip(job["requests"], r["res"]["protocols"][kind]):
                 nreq += 1
                 out = o["out"].encode("latin-1")
-                ok, why = success_with_all(rq["proto"], out, base)
+                ok, why = success_with_all(rq["proto"], out, base, (sc.get("extra_umn", []) if kind == "umn" else []) + sc.get("extra_all", []))
                 if o["exc"]:
                     ok, why = False, "exception " + o["exc"]
                 chk.count((json.dumps(sc["faults"]), sc["dir"], kind, rq["proto"]), nontrivial=bool(sc["faults"]))
@@ -277,7 +340,7 @@ def run(tier):
                 for which, o in zip(("first", "repeated"), pair_):
                     nreq += 1
                     out = o["out"].encode("latin-1")
-                    ok, why = success_with_all(rq["proto"], out, base)
+                    ok, why = success_with_all(rq["proto"], out, base, (sc.get("extra_umn", []) if kind == "umn" else []) + sc.get("extra_all", []))
                     if o["exc"]:
                         ok, why = False, "exception " + o["exc"]
                     chk.count((json.dumps(sc["faults"]), sc["dir"], kind, rq["proto"], "cache", which), nontrivial=bool(sc["faults"]))
